@@ -1111,6 +1111,59 @@ def _two_variant(ty):
     return bool(re.match(r'^&*(?:mut )?(?:std|core)::(?:result::Result|option::Option|ops::ControlFlow)<', ty or ''))
 
 
+def fold_const_switches(b):
+    """A `switchInt` on a local whose only definition in the whole body is a constant (or a copy of such a local) goes one
+    way: the shape a spliced helper leaves when it was called with a literal (`Landing::new(dst, true)` -> `if stage {..}`).
+    The other arm becomes unreachable.  A block that tests a constant it assigned itself (`cfg!(debug_assertions)`) stays as
+    written - the panic rules recognise debug-only assertions by that very test."""
+    ndefs, cdef = {}, {}
+    for bi, blk in enumerate(b.blocks):
+        for st in blk['stmts']:
+            d = st['dst']
+            ndefs[d['l']] = ndefs.get(d['l'], 0) + 1
+            if not d['proj']:
+                cdef[d['l']] = (bi, st['rv'])
+        t = blk['term']
+        if t['k'] == 'call' and isinstance(t.get('dst'), dict):
+            ndefs[t['dst']['l']] = ndefs.get(t['dst']['l'], 0) + 2
+    def value(l, depth=0):
+        if depth > 4 or ndefs.get(l, 0) != 1 or l not in cdef or 1 <= l <= getattr(b, 'argc', 0):
+            return None
+        bi, rv = cdef[l]
+        if rv['k'] != 'use':
+            return None
+        o = rv['ops'][0]
+        if o['k'] == 'const':
+            return (o['v'], bi) if 'v' in o else None
+        if o['p']['proj']:
+            return None
+        r = value(o['p']['l'], depth + 1)
+        return r
+    changed = False
+    for bi, blk in enumerate(b.blocks):
+        t = blk['term']
+        if t['k'] != 'switch' or t['on']['k'] == 'const' or t['on']['p']['proj']:
+            continue
+        r = value(t['on']['p']['l'])
+        if r is None:
+            continue
+        v, defbb = r
+        if defbb == bi:
+            continue
+        v = int(v) if isinstance(v, bool) else v
+        if not isinstance(v, int):
+            continue
+        tgt = t['otherwise']
+        for tv, tb in t['targets']:
+            if tv == v:
+                tgt = tb
+        blk['term'] = {'k': 'goto', 'target': tgt, 'line': t.get('line'), 'col': t.get('col'), 'exp': t.get('exp', False), 'folded': True}
+        changed = True
+    if changed:
+        b._cfg_cache = None
+    return changed
+
+
 def thread_jumps(b, rounds=4):
     """Exact jump threading with duplication: a block that knows the constant / enum variant of a local - because it has just
     assigned it, or because it is entered only through the switch edge that tested it - and then runs, through gotos,
@@ -1623,6 +1676,7 @@ def apply(F, log=None):
         if p_ in F.bodies:
             unroll_array_loops(F.bodies[p_])
             sroa_tuples(F.bodies[p_])
+            fold_const_switches(F.bodies[p_])
             thread_jumps(F.bodies[p_])
     _fill_variant_summaries(F)
     if done:
